@@ -203,5 +203,20 @@ class Worker:
             self.p.kill()
 
 
+_POOL: Dict[Any, List["Worker"]] = {}
+
+
+def get_workers(specs) -> List["Worker"]:
+    """Per-process cache of workers (keyed by pid so forked children never share pipes)."""
+    import atexit
+
+    key = (os.getpid(), tuple(specs))
+    if key not in _POOL:
+        ws = [Worker(fb, oj) for fb, oj in specs]
+        _POOL[key] = ws
+        atexit.register(lambda: [w.close() for w in ws])
+    return _POOL[key]
+
+
 if __name__ == "__main__":
     main()
